@@ -103,6 +103,11 @@ func flagFuncsPass(p *Program, out map[*ssa.Function]bool) {
 				}
 			}
 		}
+		if hasFalse && isNewHelper(f) && discriminatorFlag(f) {
+			// `(idx int, isXY bool)`: both answers come with a real value — the Boolean
+			// tells two cases apart, it does not say whether the value exists
+			continue
+		}
 		if hasFalse && isNewHelper(f) && invertedFlag(f) {
 			// `(rings, exteriorCollapsed bool)`: true announces the placeholder, the
 			// values are real when the flag is false — not the comma-ok convention
@@ -113,6 +118,27 @@ func flagFuncsPass(p *Program, out map[*ssa.Function]bool) {
 			out[f] = true
 		}
 	}
+}
+
+// discriminatorFlag: some return with the constant flag false carries a computed
+// (non-placeholder) value: the flag is not a validity flag.
+func discriminatorFlag(f *ssa.Function) bool {
+	n := f.Signature.Results().Len()
+	for _, r := range returnsOf(f) {
+		b, ok := constBool(r.Results[n-1])
+		if !ok || b {
+			continue
+		}
+		for i := 0; i < n-1; i++ {
+			if _, isC := r.Results[i].(*ssa.Const); !isC {
+				if _, isZeroStruct := r.Results[i].(*ssa.UnOp); isZeroStruct {
+					continue // load of a zero-valued local (e.g. `var c Coordinates`)
+				}
+				return true
+			}
+		}
+	}
+	return false
 }
 
 // invertedFlag: among f's returns with a constant last result, those with true
